@@ -177,6 +177,7 @@ struct Run : ContBase {
         int api = strapi ? (int)s.pick({3, 2, 1, 2}) : 3;      // put putstr putstrf put_by_obj
         if (api == 1 || api == 2) { for (auto &ch : v) if (ch == 0) ch = 'n'; }
         if (api == 2 && v.size() > 900) v.resize(900);
+        if (api == 2 && s.chance(1, 6)) { static const size_t edge[] = {16, 32, 64, 128, 256, 512, 1024}; size_t len = edge[s.range(0, 6)] + (size_t)s.range(0, 3) - 2; v.assign(len, 'f'); for (size_t i = 0; i < len; i += 7) v[i] = (char)('a' + i % 26); }
         std::string stored = (api == 1 || api == 2) ? v + std::string(1, '\0') : v;
         bool present = m.count(k) > 0;
         size_t used = used_model(), need = slots_for(stored.size()), rel = present ? slots_for(m[k].size()) : 0;
